@@ -87,6 +87,9 @@ def gen_messages(ctx, t, n):
                     out.append((direction, inst, ("fixed", row["name"], field_values(inst, row["leaves"]))))
                 elif row["kind"] == "sub":
                     body = bytes(rng.randint(0, 255) for _ in range(rng.choice([0, 4, 11, 18, 4 + 7 * rng.randint(0, 30)])))
+                    if rng.random() < 0.5:
+                        # bodies that begin with (repetitions of) a type byte: the tag must be cut by length, not by value
+                        body = bytes([rng.choice([row["type"], 0, 1, 2, 3, 4])] * rng.randint(1, 3)) + body
                     out.append((direction, row["cls"](subroutine=body), ("sub", list(body))))
                 else:
                     ln = rng.choice([0, 1, 2, 3, 5, 8, 16, 33, 64, rng.randint(0, 64)])
@@ -123,6 +126,26 @@ def run(ctx):
                       "ints is outside C15; returned-array entries are assumed to fit 32 bits)")
     t = mt.tables(ctx.repo)
     M = t["M"]
+    for direction, cls in t["unregistered"]:
+        deser = M.deserialize_host_msg if direction == "host" else M.deserialize_return_msg
+        try:
+            if cls.__name__ == "ErrorMessage":
+                inst = cls(M.ErrorCode.GENERAL)
+            elif cls.__name__ == "ReturnRegMessage":
+                inst = cls(t["encoding"].Register(3, 5), -42)
+            elif cls.__name__ == "ReturnArrayMessage":
+                inst = cls(address=1, values=[1, None])
+            elif cls.__name__ == "SubroutineMessage":
+                inst = cls(subroutine=b"\x00\x00\x00\x00")
+            else:
+                inst = cls()
+            back = deser(bytes(inst))
+            got = type(back).__name__
+        except Exception as e:  # noqa
+            got = f"raises {type(e).__name__}"
+        if got != cls.__name__:
+            ctx.violation("a message does not deserialise to a message of its own type",
+                          dict(direction=direction, message_class=cls.__name__, deserialises_as=got), key=None)
     n = 12 if ctx.tier == "quick" else 400
     msgs = gen_messages(ctx, t, n)
     cases = {"host": [], "ret": []}
